@@ -315,7 +315,8 @@ class _FilePersistence(_ConcretePersistence):
                         rest_line = line[len(_METADATA_BENCHMARK):]
                         bench_id, bench_json = rest_line.split("=", 1)
                         bench_dict = json.loads(bench_json)
-                        benchmark = self._data_store.create_benchmark_from_dict(bench_dict)
+                        benchmark = self._create_from_metadata(
+                            self._data_store.create_benchmark_from_dict, bench_dict)
                         assert benchmark not in self._benchmarks_in_file
                         self._benchmarks_in_file[benchmark] = int(bench_id)
                         assert len(self._id_to_benchmark) == int(bench_id)
@@ -325,11 +326,13 @@ class _FilePersistence(_ConcretePersistence):
                         rest_line = line[len(_METADATA_RUN_ID):]
                         run_id_id, run_json = rest_line.split("=", 1)
                         run_dict = json.loads(run_json)
-                        assert "benchmark_id" in run_dict
+                        if not isinstance(run_dict, Mapping) or "benchmark_id" not in run_dict:
+                            raise ValueError("Damaged run_id record in data file.")
                         benchmark_id = int(run_dict["benchmark_id"])
                         benchmark = self._id_to_benchmark[benchmark_id]
 
-                        run_id = self._data_store.create_run_id_from_dict(run_dict, benchmark)
+                        run_id = self._create_from_metadata(
+                            self._data_store.create_run_id_from_dict, run_dict, benchmark)
                         self._run_ids_in_file[run_id] = int(run_id_id)
                         assert len(self._id_to_run_id) == int(run_id_id)
                         self._id_to_run_id.append(run_id)
@@ -352,6 +355,20 @@ class _FilePersistence(_ConcretePersistence):
                     # the message quotes the damaged line, which is not a format string
                     self.ui.debug_error_info("{ind}" + escape_braces(msg) + "\n")
                     errors.add(msg)
+
+    @staticmethod
+    def _create_from_metadata(create, data, *args):
+        """
+        The remains of an interrupted metadata record, with the header of the
+        next session appended to it, can be valid JSON by accident, e.g. a number.
+        Report it like any other damaged line.
+        """
+        if not isinstance(data, Mapping):
+            raise ValueError("Damaged metadata record in data file.")
+        try:
+            return create(data, *args)
+        except (KeyError, TypeError, AttributeError) as err:
+            raise ValueError("Damaged metadata record in data file: " + repr(err)) from err
 
     def _parse_data_line(
             self, data_point, line, line_number, runs, filtered_data_file, previous_run_id):
